@@ -93,6 +93,7 @@ func c08CancelBase(dir string) map[string]string {
 	}
 	return c08CancelBaseline
 }
+
 const c08CancelRead = "SELECT * FROM t; SELECT * FROM u; SELECT * FROM tmp;"
 
 func c08ReadKey(env *drv.Env) (string, error) {
